@@ -852,9 +852,33 @@ func c11Gen(r *verifh.Rng) []verifh.Section {
 		id := 1
 		var added []int
 		bytes := 0 // the generator's guess of the bytes in the chunk container (exact unless adds race)
+		// while a caller is (possibly) parked inside the critical section / the harness owns the barrier, every
+		// further call piles up behind it; the pile is released after at most 3 operations (the model explores
+		// every interleaving of the released goroutines: the state space is exponential in the pile)
+		armed := map[int]bool{}
+		bheld := false
+		pile := 0
 		for j := 0; j < nops; j++ {
 			w := r.Intn(p)
-			switch x := r.Intn(100); {
+			if pile >= 3 {
+				pile = 0
+				if bheld {
+					ops = append(ops, "brel "+r.PickS("wait", "wait", "flush", "none"))
+					bheld = false
+				}
+				for k := 0; k < p; k++ {
+					if armed[k] {
+						ops = append(ops, fmt.Sprintf("unhold %d", k))
+						delete(armed, k)
+					}
+				}
+				continue
+			}
+			x := r.Intn(100)
+			if (len(armed) > 0 || bheld) && (x < 70 || x >= 92) {
+				pile++
+			}
+			switch {
 			case x < 40:
 				sz := r.Intn(8)
 				if kind == "chunk" && r.Chance(3, 5) {
@@ -886,12 +910,16 @@ func c11Gen(r *verifh.Rng) []verifh.Section {
 				bytes = 0
 			case x < 85:
 				ops = append(ops, fmt.Sprintf("hold %d %s", w, r.PickS("full", "removed", "notfull", "fremoved")))
+				armed[w] = true
 			case x < 88:
 				ops = append(ops, fmt.Sprintf("unhold %d", w))
+				delete(armed, w)
 			case x < 90:
 				ops = append(ops, fmt.Sprintf("bhold %d", w))
+				bheld = true
 			case x < 92:
 				ops = append(ops, "brel "+r.PickS("wait", "wait", "flush", "none"))
+				bheld = false
 			default:
 				if gate == 1 && len(added) > 0 {
 					k := added[r.Intn(len(added))]
